@@ -131,6 +131,11 @@ type Exec struct {
 	horizon int
 	timeout time.Duration
 	blocks  int
+	// Fault, when set, is consulted at every driver call of a scheduled thread, after the
+	// scheduling decision: (thread, 1-based index of the call within the thread, op, sql) ->
+	// error to inject instead of executing the call (K2 x K3: a fault at a fixed position
+	// combined with every schedule).
+	Fault func(thread, call int, op, sql string) error
 }
 
 func NewExec(db *pgsim.DB, n int) *Exec {
@@ -161,6 +166,11 @@ func (e *Exec) Hook(ctx context.Context, s *pgsim.Session, op, sql string) error
 	}
 	e.events <- event{tid: tid, kind: evPoint, what: what}
 	<-t.resume
+	if e.Fault != nil {
+		if err := e.Fault(tid, t.calls, op, sql); err != nil {
+			return err
+		}
+	}
 	if op == "commit" {
 		e.mu.Lock()
 		e.commits = append(e.commits, tid)
